@@ -319,7 +319,7 @@ pub fn c17_votes(data: &[u8]) -> c17::Case {
     while s.left() > 0 && blocks.len() < 12 {
         blocks.push((s.u16() % 1400, 1 + s.u16() % 700, s.u8() % 6));
     }
-    c17::Case { dual: true, min, n_voters: 2, first_incoming: 99, n_cands: 2, steps: vec![], expiry: false, tight_record: false, table: Some(c17::VoteTable { min, blocks }) }
+    c17::Case { dual: true, min, n_voters: 2, first_incoming: 99, n_cands: 2, steps: vec![], expiry: false, tight_record: false, table: Some(c17::VoteTable { min, blocks }), start_bare: false }
 }
 
 // ---- C18: limiter and filter arrival sequences
@@ -373,6 +373,6 @@ pub fn c18(data: &[u8]) -> c18::Case {
         if events.is_empty() {
             events.push(c18::FEv::Prune);
         }
-        c18::Case::Filter(c18::FilCase { ip_burst, node_burst, total_burst, ban_1h, per_ip_features, events, ip_family })
+        c18::Case::Filter(c18::FilCase { ip_burst, node_burst, total_burst, ban_1h, per_ip_features, events, ip_family, no_node_quota: false })
     }
 }
